@@ -157,6 +157,12 @@ func Catalogue() []*Atom {
 	add(&Atom{ID: "tag.rename.punct", Fields: ft("int", `json:"a.b$c@d¤"`)})
 	add(&Atom{ID: "tag.rename.invalidchars", Fields: ft("int", `json:"na\\me¤"`)})
 	add(&Atom{ID: "tag.rename.struct", Decls: childDecl, Fields: ft("§N", `json:"child¤"`)})
+	// JSON names that are spelled like tag options (the name slot must not be read as an option)
+	add(&Atom{ID: "tag.rename.named-string.bool", Fields: ft("bool", `json:"string"`), NoCompose: true})
+	add(&Atom{ID: "tag.rename.named-string.int", Fields: ft("int64", `json:"string"`), NoCompose: true})
+	add(&Atom{ID: "tag.rename.named-string.ptr.float", Fields: ft("*float64", `json:"string"`), NoCompose: true})
+	add(&Atom{ID: "tag.rename.named-omitempty.int", Fields: ft("int", `json:"omitempty"`), NoCompose: true})
+	add(&Atom{ID: "tag.rename.named-string.omitempty", Fields: ft("int32", `json:"string,omitempty"`), NoCompose: true})
 	add(&Atom{ID: "tag.dash", Fields: ft("int", `json:"-"`) + "\tG¤ string\n"})
 	add(&Atom{ID: "tag.dash.unencodable", Fields: ft("func()", `json:"-"`) + "\tG¤ string\n"})
 	add(&Atom{ID: "tag.dashcomma", Fields: ft("int", `json:"-,"`), NoCompose: true})
